@@ -150,6 +150,8 @@ def gen_workload(rng, malformed=False, batch=False, dag=False, resolve=False):
 
 
 def gen_world(rng, stream="regular"):
+    if stream == "plan" or stream.startswith("plan:"):
+        return gen_plan_world(rng, stream.split(":")[1] if ":" in stream else None)
     malformed = stream == "malformed"
     batch = stream == "batch"
     dag = stream == "dag"  # plain multi-parent DAGs (joins behind paths of different length) under the bundled greedy policies
@@ -197,3 +199,115 @@ def gen_world(rng, stream="regular"):
             policy["batch_prob"] = rng.choice([0.5, 0.8, 1.0])
             policy["cancel_prob"] = rng.choice([0.0, 0.0, 0.05])
     return {"workers": gen_workers(rng), "workload": wl, "flags": flags, "policy": policy, "stream": stream, "max_steps": 3000}
+
+
+# --------------------------------------------------------------------------
+# stream "plan": small worlds for the REAL optimisation planners
+# --------------------------------------------------------------------------
+
+PLANNERS = ["ILP", "TetriSchedGurobi", "TetriSchedCPLEX"]
+
+
+def gen_plan_world(rng, planner=None):
+    """A world for ILPScheduler / TetriSchedGurobiScheduler / TetriSchedCPLEXScheduler run end to end.
+
+    Small on purpose (the Gurobi licence is size-restricted and every scheduler invocation is a solver call): 1-3
+    workers, 1-3 jobs of 1-3 tasks released over time (fixed period, 1-3 invocations), at most ~4 tasks on offer at
+    a time, 1-2 strategies per task with DIFFERENT runtimes and resource kinds (a fast GPU strategy and a slow CPU
+    strategy), short horizons.  Tasks keep arriving while earlier ones are still SCHEDULED for a later start, so a
+    retracting planner re-places them (possibly with the other strategy)."""
+    pol = planner or rng.choice(["ILP"] * 9 + ["TetriSchedGurobi"] * 7 + ["TetriSchedCPLEX"] * 4)   # a CPLEX run costs 1-3 s
+    # -- workload --------------------------------------------------------------
+    graphs, profiles = [], []
+    njobs = rng.choice([1, 2, 2, 3])
+    # ILP without deadline enforcement must use the goal max_slack (a non-convex quadratic objective: Gurobi needs seconds to
+    # minutes on 6+ tasks): few of those, and tiny
+    slack_goal = pol == "ILP" and rng.random() < 0.1
+    budget = 4 if slack_goal else 8  # tasks over the whole run
+    for ji in range(njobs):
+        jname = f"J{ji}"
+        shape = rng.choice(["one", "one", "chain2", "chain2", "chain3", "fork", "join"])
+        n = {"one": 1, "chain2": 2, "chain3": 3, "fork": 3, "join": 3}[shape]
+        if n > budget:
+            shape, n = "one", 1
+        if budget <= 0:
+            break
+        kids = {
+            "one": {0: []}, "chain2": {0: [1], 1: []}, "chain3": {0: [1], 1: [2], 2: []},
+            "fork": {0: [1, 2], 1: [], 2: []}, "join": {0: [2], 1: [2], 2: []},
+        }[shape]
+        nodes = []
+        for ti in range(n):
+            fast = rng.choice([2, 3, 4, 5])
+            slow = fast + rng.choice([3, 5, 8, 15])
+            r = rng.random()
+            if r < 0.55:
+                strategies = [
+                    {"batch_size": 1, "runtime": fast, "resource_requirements": {"GPU:any": 1}},
+                    {"batch_size": 1, "runtime": slow, "resource_requirements": {"CPU:any": 1}},
+                ]
+                if rng.random() < 0.5:
+                    strategies.reverse()
+            elif r < 0.8:
+                strategies = [{"batch_size": 1, "runtime": fast, "resource_requirements": {rng.choice(["GPU:any", "CPU:any"]): rng.choice([1, 1, 2])}}]
+            else:
+                # same kind, different amounts: the fast strategy takes the whole worker
+                strategies = [
+                    {"batch_size": 1, "runtime": fast, "resource_requirements": {"GPU:any": 2}},
+                    {"batch_size": 1, "runtime": slow, "resource_requirements": {"GPU:any": 1}},
+                ]
+            pname = f"{jname}_P{ti}"
+            profiles.append({"name": pname, "execution_strategies": strategies})
+            node = {"name": f"T{ti}", "work_profile": pname}
+            if kids[ti]:
+                node["children"] = [f"T{k}" for k in kids[ti]]
+            nodes.append(node)
+        inv = min(rng.choice([1, 2, 2, 3]), budget // n)
+        budget -= n * inv
+        g = {"name": jname, "graph": nodes, "release_policy": "fixed", "period": rng.choice([2, 3, 5, 8, 12]), "invocations": inv,
+             "start": rng.choice([0, 0, 1, 3, 6, 10]), "deadline_variance": rng.choice([[0, 0], [10, 30], [50, 100], [100, 200], [20, 20]])}
+        graphs.append(g)
+    # -- cluster ---------------------------------------------------------------
+    need = {"GPU": 1, "CPU": 1}
+    for pr in profiles:
+        for st in pr["execution_strategies"]:
+            for key, q in st["resource_requirements"].items():
+                need[key.split(":")[0]] = max(need[key.split(":")[0]], q)
+    n_workers = rng.choice([1, 2, 2, 3])
+    n_pools = 1 if n_workers == 1 or rng.random() < 0.6 else 2
+    # ILPScheduler raises AttributeError as soon as a SCHEDULED task has one (worker, strategy) pair that does not fit
+    # (known finding C10-ILP-1) and the run aborts: most ILP worlds get workers that can hold every strategy
+    all_fit = pol == "ILP" and rng.random() < 0.85
+    homogeneous = all_fit or rng.random() < 0.65
+    pools = [{"name": f"Pool{i}", "workers": []} for i in range(n_pools)]
+    for wi in range(n_workers):
+        if homogeneous or wi == 0:
+            kinds = ["GPU", "CPU"]
+        else:
+            kinds = rng.choice([["GPU"], ["CPU"], ["GPU", "CPU"]])
+        res = [{"name": f"{nm}:id{k + 1}", "quantity": need[nm] if all_fit and rng.random() < 0.8 else (need[nm] + 1 if all_fit else rng.choice([1, 1, 2]))}
+               for k, nm in enumerate(kinds)]
+        pools[wi % n_pools]["workers"].append({"name": f"W{wi % n_pools}_{wi // n_pools}", "resources": res})
+    lookahead = rng.choice([0, 0, 3, 10, 30])
+    rtg = pol != "TetriSchedCPLEX" and rng.random() < 0.3
+    enforce = rng.random() < 0.85
+    if pol == "ILP":
+        enforce = not slack_goal or rng.random() < 0.5
+    policy = {"name": pol, "enforce_deadlines": enforce, "retract": rng.random() < 0.6, "lookahead": lookahead, "goal": "max_goodput"}
+    if slack_goal:
+        policy["goal"] = "max_slack"
+        policy["lookahead"] = rng.choice([0, 0, 3])
+    if pol != "ILP":
+        policy["disc"] = rng.choice([1, 1, 1, 2, 3])
+        policy["plan_ahead"] = rng.choice([6, 10, 14]) * policy["disc"] if rng.random() < 0.85 else -1
+    flags = {
+        "loop_timeout": rng.choice([50, 80, 120]),
+        "scheduler_frequency": rng.choice([-1, -1, 1, 3, 5]),
+        "scheduler_delay": 0,
+        "runtime_variance": 0 if rng.random() < 0.9 else rng.choice([20, 50]),
+        "drop_skipped_tasks": rng.random() < 0.4,
+        "scheduler_run_at_worker_free": rng.random() < 0.15,
+        "workload_update_interval": -1,
+        "release_taskgraphs": rtg,
+    }
+    return {"workers": pools, "workload": {"graphs": graphs, "profiles": profiles}, "flags": flags, "policy": policy, "stream": "plan", "max_steps": 3000}
